@@ -84,6 +84,11 @@ Qed.
 Lemma cells_length idx axes rows f : length (cells idx axes rows f) = size (map (fun a : list bin * bool => length (fst a)) axes).
 Proof. unfold cells. rewrite tabulate_length, indices_length. reflexivity. Qed.
 
+Lemma spec_bins1_nil bins : spec_bins1 [] bins = map (fun _ => (0, 0)) bins.
+Proof. induction bins as [|b r IH]; simpl; auto. rewrite IH. reflexivity. Qed.
+Lemma cells_nil idx axes f : cells idx axes [] f = map (fun _ => 0) (indices (map (fun a : list bin * bool => length (fst a)) axes)).
+Proof. unfold cells, tabulate. reflexivity. Qed.
+
 Lemma calc1_spec_fst ps bins : fst (fst (calc1_spec ps bins)) = spec_bins1 ps bins.
 Proof. unfold calc1_spec. destruct (consecutive_tol bins); reflexivity. Qed.
 
@@ -110,14 +115,21 @@ Proof.
         try (unfold s_shape; cbn [s_freq s_err2 s_axes]; fold (s_shape s); auto).
   - destruct (_ || _); [cbn [fst]; repeat split; auto|].
     destruct (is1d s) eqn:E1.
-    + destruct (calc1_spec (pairs_1d rows ws) (fst (nth 0 (s_axes s) ([], true)))) as [[fe u] o'] eqn:Ec.
-      pose proof (calc1_spec_fst (pairs_1d rows ws) (fst (nth 0 (s_axes s) ([], true)))) as Hfe. rewrite Ec in Hfe. cbn [fst] in Hfe. subst fe.
-      cbn [fst s_freq s_err2 s_axes]. repeat split; auto;
-      unfold s_shape; cbn [s_freq s_err2 s_axes]; fold (s_shape s);
-      rewrite vadd_length; rewrite ?map_length, ?spec_bins1_length, <- ?(size_1d s E1); auto.
-    + cbn [fst s_freq s_err2 s_axes]. repeat split; auto;
-      unfold s_shape; cbn [s_freq s_err2 s_axes]; fold (s_shape s);
-      unfold calc_nd; cbn [n_freq n_err2]; rewrite vadd_length; rewrite ?cells_length; auto.
+    + destruct (pairs_1d rows ws) as [|p0 ps0] eqn:Ep.
+      * cbn [fst]. rewrite spec_bins1_nil, !map_map. repeat split; auto;
+          symmetry; apply vadd_zero_map; rewrite <- (size_1d s E1); lia.
+      * rewrite <- Ep.
+        destruct (calc1_spec (pairs_1d rows ws) (fst (nth 0 (s_axes s) ([], true)))) as [[fe u] o'] eqn:Ec.
+        pose proof (calc1_spec_fst (pairs_1d rows ws) (fst (nth 0 (s_axes s) ([], true)))) as Hfe. rewrite Ec in Hfe. cbn [fst] in Hfe. subst fe.
+        cbn [fst s_freq s_err2 s_axes]. repeat split; auto;
+        unfold s_shape; cbn [s_freq s_err2 s_axes]; fold (s_shape s);
+        rewrite vadd_length; rewrite ?map_length, ?spec_bins1_length, <- ?(size_1d s E1); auto.
+    + destruct (rows_of rows ws) as [|r0 rs0] eqn:Er.
+      * cbn [fst]. rewrite !cells_nil. repeat split; auto;
+          symmetry; apply vadd_zero_map; rewrite indices_length; unfold s_shape in *; lia.
+      * rewrite <- Er. cbn [fst s_freq s_err2 s_axes]. repeat split; auto;
+        unfold s_shape; cbn [s_freq s_err2 s_axes]; fold (s_shape s);
+        unfold calc_nd; cbn [n_freq n_err2]; rewrite vadd_length; rewrite ?cells_length; auto.
 Qed.
 
 Lemma dvec_axes sq s s' o : s_axes s = s_axes s' -> dvec sq s o = dvec sq s' o.
